@@ -11,6 +11,8 @@ BIG = str(2 ** 70 + 3)
 
 
 def check(run):
+    if xc.maybe_replay(run):
+        return
     quick = run.tier == "quick"
     run.build_harness()
     run.tlc_mc("XState.tla", "MC_XState_tok.cfg" if quick else "MC_XState_tok_thorough.cfg", timeout=3000)
